@@ -63,6 +63,8 @@ type CryptDoc struct {
 	MetaTitle string
 	// DeferredPuts counts the objects Put while a stream was open.
 	DeferredPuts int
+	// LongStrings counts the strings of about 64 KiB and more.
+	LongStrings int
 	// OtherMetadataStreams counts the streams with /Type /Metadata besides the catalog's.
 	OtherMetadataStreams int
 }
@@ -110,6 +112,11 @@ func BuildCryptDoc(r *kit.Rand, cfg CryptConfig) (*CryptDoc, error) {
 		s := append([]byte(prefix), c...)
 		if r.Chance(1, 4) {
 			s = append(s, r.Bytes(r.Intn(40))...)
+		}
+		if r.Chance(1, 60) {
+			// a string around and above 2^16 bytes
+			s = append(s, r.Bytes(kit.Pick(r, []int{65450, 65500, 65535, 70000}))...)
+			d.LongStrings++
 		}
 		return pdf.String(s)
 	}
